@@ -76,9 +76,11 @@ def configs(tier):
     imr0 = dict(kind='imap', fn='tenfold', items=[1, 2], iter_raise_at=0)
     imr1 = dict(kind='imap_unordered', fn='tenfold', items=[1, 2],
                 iter_raise_at=1)
-    for jobs in ([ap_ok, imr0], [mp, imr1]):
+    for jobs in ([ap_ok, imr0], [mp, imr1], [mp, imr0]):
         out.append(dict(name='iterable-raises:' + '+'.join(
-            j['kind'] for j in jobs), procs=2, jobs=jobs, pool=pool,
+            j['kind'] + ('@%d' % j['iter_raise_at']
+                         if 'iter_raise_at' in j else '') for j in jobs),
+            procs=2, jobs=jobs, pool=pool,
             alphabet=dict(A, discard=False, terminate_job=False,
                           put_faults=(), next=True, die=()),
             depth=d, max_states=40000 if not T else 400000))
